@@ -161,6 +161,17 @@ PROPS["C02"] = {
     "rule": "case = one session history with forged-message steps; distinct_nontrivial counts distinct injection classes (kind, username form, key, transaction kind, source kind, expected effect, agent state at injection)",
     "assumptions": ["liveness refresh by a correctly signed response from a known remote is allowed (the statement restricts pair state only)"],
 }
+PROPS["C10"] = {
+    "parts": [part("TestVerifC10Loop", pkg="./internal/taskloop", race=True, q=8, t=16, tq=900)],
+    "level": "exploration",
+    "engine": "E2 loopmon + E3 apihammer",
+    "technique": "Go race detector over hostile concurrent workloads + history monitor of the task loop (global atomic sequence numbers on task start/end, Run return and Close return; overlap counter) with seeded pauses at hook H2 + porcupine linearizability check of the credential operations",
+    "level_text": "(a) 2-16 submitters x 1-12 tasks with live / pre-cancelled / cancelled-while-waiting / loop-as-context contexts, 1-3 concurrent closers with and without preStop, seeded yields at the four H2 sites of the loop, all under -race. "
+                  "(b) every public Agent/Conn method called from many goroutines against connected agents with traffic, under -race; race reports deduplicated by innermost pion/ice frame pair; credential histories checked with porcupine.",
+    "level_note": "Schedules are whatever the Go scheduler plus the seeded pauses produce; a race the workload never provokes is not seen. Tasks never submit to their own loop (documented self-deadlock).",
+    "rule": "case = one loop history or one hammer round; distinct_nontrivial counts distinct (submitters, tasks, closers, preStop, yield level, ran-fraction) classes and API method pairs observed concurrently",
+    "assumptions": ["the race detector only reports races that actually occur in the executions produced"],
+}
 PROPS["C05"] = {
     "parts": [part("TestVerifC05", q=8, t=16, tq=900)],
     "level": "exploration",
@@ -181,6 +192,8 @@ ENGINES.append({"name": "E6 tcpmon", "path": "harness/ice/vfc14.go, vfc15.go", "
                 "kind_free_text": "framing functions over a re-chunking net.Conn; TCPMuxDefault over real loopback TCP with well-behaved and hostile clients"})
 ENGINES.append({"name": "E1 simnet", "path": "harness/ice/vfsim.go, vfsession.go, vfc01.go ...", "serves_properties": ["C01", "C02", "C03", "C04", "C05", "C06", "C07", "C20"],
                 "kind_free_text": "two real agents (or agent + scripted authenticated peer) over an in-memory datagram switch; the harness owns the check ticker (hook H1) and every datagram; oracles after every step"})
+ENGINES.append({"name": "E2 loopmon + E3 apihammer", "path": "harness/taskloop/vfloop.go, harness/ice/vfc10.go, tools/linz", "serves_properties": ["C10"],
+                "kind_free_text": "instrumented task-loop histories and public-API hammering under the race detector; offline porcupine check"})
 
 # properties without a check yet (kept current by hand)
 NOT_YET = {}
